@@ -3,8 +3,8 @@ from verif import Case
 from gen_util import *
 import pyref
 
-MODULES = ["WowSrp.Props.C07", "WowSrp.Props.Source.Structural.C07", "WowSrp.Props.Source.CipherLoopsVanilla"]
-THEOREMS = ["C07_constants", "C07_fresh_inv", "C07_step_bounds", "C07_recurrence", "C07_chunking", "C07_empty_call", "C07_inverse_step", "C07_roundtrip", "C07_source_structural_impls", "C07_translated_encrypt_step", "C07_translated_decrypt_step", "C07_translated_moduli", "C07_roundtrip_from_equal_states"]
+MODULES = ["WowSrp.Props.C07", "WowSrp.Props.Source.Structural.C07", "WowSrp.Props.Source.CipherLoopsVanilla", "WowSrp.Props.Source.Glue.Vanilla"]
+THEOREMS = ["C07_constants", "C07_fresh_inv", "C07_step_bounds", "C07_recurrence", "C07_chunking", "C07_empty_call", "C07_inverse_step", "C07_roundtrip", "C07_source_structural_impls", "C07_translated_encrypt_step", "C07_translated_decrypt_step", "C07_translated_moduli", "C07_roundtrip_from_equal_states", "C07_source_glue_vanilla"]
 RULE = ("streams of random/boundary length under random/special 40-byte keys, randomly partitioned into encrypt "
         "calls (empty calls, calls > 40 bytes), ciphertext independently re-partitioned into decrypt calls on a second "
         "object; thorough adds the full step table (40 positions x 256 previous x 256 inputs) per direction. "
